@@ -11,6 +11,7 @@ import (
 	"hash/crc32"
 	"strconv"
 	"strings"
+	"sync"
 	"testing"
 	"time"
 
@@ -20,6 +21,7 @@ import (
 	"github.com/bluenviron/mediacommon/v2/pkg/codecs/mpeg4audio"
 	"github.com/pion/rtp"
 
+	"github.com/bluenviron/mediamtx/internal/conf"
 	"github.com/bluenviron/mediamtx/internal/logger"
 	"github.com/bluenviron/mediamtx/internal/unit"
 	"github.com/bluenviron/mediamtx/internal/verifrt"
@@ -466,4 +468,274 @@ func TestVerif_C23_Runs(t *testing.T) {
 		out.Emit(map[string]any{"id": c.ID, "codec": c.Codec, "branch": c.Branch, "m": c.M, "units": units,
 			"emits": emits, "pel": vf23SigOf(pel), "del": vf23SigOf(del), "derrs2": derrs2})
 	})
+}
+
+// ---------------------------------------------------------------------------------------------
+// Persistent streams: one always-available Stream whose format lives through several sub-streams
+// (offline filler, publishers). Everything the format hands to a reader across the phases is
+// recorded; TLC judges it with the run-level formulas (one offset, consecutive sequence numbers,
+// payload <= M, depacketized = delivered exactly once).
+
+type vf23Phase struct {
+	Kind  string         `json:"kind"` // "offline" | "pub"
+	RTP   bool           `json:"rtp"`
+	Units []vf23UnitCase `json:"units"`
+}
+
+type vf23PCase struct {
+	ID     int         `json:"id"`
+	Codec  string      `json:"codec"`
+	M      int         `json:"m"`
+	Phases []vf23Phase `json:"phases"`
+}
+
+func vf23Track(codec string) conf.AlwaysAvailableTrack {
+	switch codec {
+	case "H264":
+		return conf.AlwaysAvailableTrack{Codec: conf.CodecH264}
+	case "H265":
+		return conf.AlwaysAvailableTrack{Codec: conf.CodecH265}
+	case "AV1":
+		return conf.AlwaysAvailableTrack{Codec: conf.CodecAV1}
+	case "VP9":
+		return conf.AlwaysAvailableTrack{Codec: conf.CodecVP9}
+	case "Opus":
+		return conf.AlwaysAvailableTrack{Codec: conf.CodecOpus, ChannelCount: 2}
+	case "MPEG4Audio":
+		return conf.AlwaysAvailableTrack{Codec: conf.CodecMPEG4Audio, SampleRate: 48000, ChannelCount: 2}
+	case "G711":
+		return conf.AlwaysAvailableTrack{Codec: conf.CodecG711, SampleRate: 8000, ChannelCount: 1, MULaw: true}
+	case "LPCM":
+		return conf.AlwaysAvailableTrack{Codec: conf.CodecLPCM, SampleRate: 48000, ChannelCount: 2}
+	}
+	panic("vf23: no always-available track for " + codec)
+}
+
+type vf23Seen struct {
+	phase int
+	pts   int64
+	nilp  bool
+	elems [][]byte
+	pkts  []*rtp.Packet
+}
+
+func vf23RunPersist(t *testing.T, c *vf23PCase) map[string]any {
+	frameCodec := map[string]bool{"H264": true, "H265": true, "AV1": true, "VP9": true}
+	sampleCodec := c.Codec == "G711" || c.Codec == "LPCM"
+	strm := &Stream{AlwaysAvailable: true, AlwaysAvailableTracks: []conf.AlwaysAvailableTrack{vf23Track(c.Codec)},
+		WriteQueueSize: 512, RTPMaxPayloadSize: c.M, ReplaceNTP: true, Parent: vf23Log{}}
+	if err := strm.Initialize(); err != nil { // starts the offline sub stream
+		t.Fatalf("persist run %d: %v", c.ID, err)
+	}
+	defer strm.Close()
+	media := strm.OrigDesc.Medias[0]
+	forma := media.Formats[0]
+	sf := strm.medias[media].formats[forma]
+
+	var mu sync.Mutex
+	var seen []vf23Seen
+	var phaseOf []int // phase of the n-th unit pushed to the reader (written by the synchronous hook)
+	curPhase := 1
+	pushed, got := 0, 0
+
+	r := &Reader{Parent: vf23Log{}}
+	cb := func(u *unit.Unit) error {
+		mu.Lock()
+		defer mu.Unlock()
+		s := vf23Seen{pts: u.PTS, nilp: u.NilPayload()}
+		if got < len(phaseOf) {
+			s.phase = phaseOf[got]
+		}
+		got++
+		if !u.NilPayload() {
+			el, _ := vf23Elems(u.Payload)
+			for _, x := range el {
+				s.elems = append(s.elems, append([]byte{}, x...))
+			}
+		}
+		for _, pkt := range u.RTPPackets {
+			s.pkts = append(s.pkts, pkt.Clone())
+		}
+		seen = append(seen, s)
+		return nil
+	}
+	r.OnData(media, forma, cb)
+	r.queueSize = strm.WriteQueueSize
+	r.start()
+	// register the reader and the counting hook in one critical section (WriteUnit holds the read
+	// lock while writeUnitInner runs), so that every unit counted by the hook reaches the reader
+	strm.mutex.Lock()
+	strm.readers[r] = struct{}{}
+	sf.onDatas[r] = cb
+	origWriteRTSP := sf.writeRTSP
+	sf.writeRTSP = func(pkts []*rtp.Packet, ntp time.Time) {
+		mu.Lock()
+		pushed++
+		phaseOf = append(phaseOf, curPhase)
+		mu.Unlock()
+		origWriteRTSP(pkts, ntp)
+	}
+	strm.mutex.Unlock()
+	defer strm.RemoveReader(r)
+
+	wait := func(what string, cond func() bool) {
+		deadline := time.Now().Add(20 * time.Second)
+		for {
+			mu.Lock()
+			ok := cond()
+			mu.Unlock()
+			if ok {
+				return
+			}
+			if time.Now().After(deadline) {
+				t.Fatalf("persist run %d: timed out waiting for %s", c.ID, what)
+			}
+			time.Sleep(time.Millisecond)
+		}
+	}
+	barrier := func() { wait("the reader", func() bool { return got == pushed }) }
+	setPhase := func(p int) { mu.Lock(); curPhase = p; mu.Unlock() }
+
+	inOff := uint32(0x51000000 + c.ID*104729)
+	inSeq := uint16(65533)
+	names := []string{}
+	rejected := 0
+	for pi, ph := range c.Phases {
+		setPhase(pi + 1)
+		if ph.Kind == "offline" {
+			names = append(names, "offline")
+			if pi > 0 {
+				if err := strm.StartOfflineSubStream(); err != nil {
+					t.Fatalf("persist run %d: %v", c.ID, err)
+				}
+			}
+			mu.Lock()
+			base := pushed
+			mu.Unlock()
+			wait("an offline unit", func() bool { return pushed > base })
+			continue
+		}
+		if ph.RTP {
+			names = append(names, "rtp publisher")
+		} else {
+			names = append(names, "publisher")
+		}
+		inForma := vf23Format(c.Codec, "nonrtp")
+		inDesc := &description.Session{Medias: []*description.Media{{Type: media.Type, Formats: []format.Format{inForma}}}}
+		ss := &SubStream{Stream: strm, InDesc: inDesc, UseRTPPackets: ph.RTP}
+		if err := ss.Initialize(); err != nil { // stops the offline sub stream if it is running
+			t.Fatalf("persist run %d: %v", c.ID, err)
+		}
+		// units written by the stopped sub stream may still be in flight: they belong to the
+		// previous phase
+		barrier()
+		pts := int64(0)
+		for k, uc := range ph.Units {
+			pts += 3000
+			payload, _ := vf23Payload(c.Codec, uc, byte(29*k+c.ID+pi))
+			if !ph.RTP {
+				ss.WriteUnit(inDesc.Medias[0], inForma, &unit.Unit{PTS: pts, Payload: payload})
+				continue
+			}
+			inEnc, err := newRTPEncoder(sf.outFormat, uc.Pub, new(uint32(0x55667788)), new(inSeq))
+			if err != nil {
+				t.Fatalf("persist run %d: %v", c.ID, err)
+			}
+			inPkts, err := inEnc.encode(payload)
+			if err != nil {
+				rejected++
+				continue
+			}
+			inSeq += uint16(len(inPkts))
+			for _, pkt := range inPkts {
+				pkt.Timestamp += inOff + uint32(pts)
+				ss.WriteUnit(inDesc.Medias[0], inForma, &unit.Unit{PTS: pts, RTPPackets: []*rtp.Packet{pkt}})
+			}
+		}
+		barrier()
+	}
+	// freeze: stop whatever is still writing, then drain
+	strm.mutex.Lock()
+	sf.writeRTSP = origWriteRTSP
+	delete(sf.onDatas, r)
+	strm.mutex.Unlock()
+	barrier()
+
+	dec2, err := newRTPDecoder(sf.outFormat)
+	if err != nil {
+		t.Fatalf("persist run %d: %v", c.ID, err)
+	}
+	mu.Lock()
+	defer mu.Unlock()
+	emits := []vf23Emit{}
+	pel, del := [][]byte{}, [][]byte{}
+	derrs2 := []string{}
+	for _, s := range seen {
+		e := vf23Emit{Unit: s.phase, Active: true, NilP: s.nilp, Uniform: frameCodec[c.Codec], Pkts: []vf23Pkt{}}
+		pel = append(pel, s.elems...)
+		for _, pkt := range s.pkts {
+			e.Pkts = append(e.Pkts, vf23Pkt{Len: len(pkt.Payload), Seq: int(pkt.SequenceNumber),
+				TsOff: strconv.FormatUint(uint64(pkt.Timestamp-uint32(s.pts)), 10)})
+			var p unit.Payload
+			var derr error
+			pan, pmsg := verifrt.Catch(func() { p, derr = dec2.decode(pkt) })
+			switch {
+			case pan:
+				derrs2 = append(derrs2, "panic: "+pmsg)
+			case derr != nil:
+				if !strings.Contains(derr.Error(), "more packets") {
+					derrs2 = append(derrs2, derr.Error())
+				}
+			case p != nil:
+				el, _ := vf23Elems(p)
+				for _, x := range el {
+					del = append(del, append([]byte{}, x...))
+				}
+			}
+		}
+		emits = append(emits, e)
+	}
+	if sampleCodec { // sample-based audio: packet boundaries are not payload boundaries
+		cat := func(xs [][]byte) [][]byte {
+			var b []byte
+			for _, x := range xs {
+				b = append(b, x...)
+			}
+			return [][]byte{b}
+		}
+		pel, del = cat(pel), cat(del)
+	}
+	return map[string]any{"id": c.ID, "codec": c.Codec, "branch": "persist", "m": c.M, "units": []vf23Unit{},
+		"phases": names, "rejected": rejected,
+		"emits": emits, "pel": vf23SigOf(pel), "del": vf23SigOf(del), "derrs2": derrs2}
+}
+
+func TestVerif_C23_Persist(t *testing.T) {
+	out := verifrt.NewOutFile(t, verifrt.ParamS("POUT", ""))
+	defer out.Close()
+	var cases []*vf23PCase
+	verifrt.ForEachCaseFile(t, verifrt.ParamS("PCASES", ""), func(raw []byte) {
+		c := &vf23PCase{}
+		verifrt.Decode(t, raw, c)
+		cases = append(cases, c)
+	})
+	// the offline filler runs in real time: execute the (independent) runs concurrently
+	res := make([]map[string]any, len(cases))
+	sem := make(chan struct{}, 8)
+	var wg sync.WaitGroup
+	for i, c := range cases {
+		wg.Add(1)
+		sem <- struct{}{}
+		go func() {
+			defer wg.Done()
+			defer func() { <-sem }()
+			res[i] = vf23RunPersist(t, c)
+		}()
+	}
+	wg.Wait()
+	for _, r := range res {
+		if r != nil {
+			out.Emit(r)
+		}
+	}
 }
